@@ -313,12 +313,13 @@ pub fn adaptor_check(case: &Case, pr: &Printed, base: &RealTrace, r: &mut crate:
     let tc = tc?;
     let n = rows.len();
     let sched = |r: &mut crate::prng::Prng| (0..1 + r.below(4)).map(|_| r.below(4)).collect::<Vec<usize>>();
-    let how = match r.below(6) {
+    let how = match r.below(8) {
         0 | 1 => Consume::Nth(sched(r)),
         2 => Consume::Skip(sched(r)),
         3 => Consume::StepBy(1 + r.below(4)),
         4 => Consume::Count(r.below(n + 1)),
-        _ => Consume::Last(r.below(n + 1)),
+        5 => Consume::Last(r.below(n + 1)),
+        _ => Consume::Bulk(r.below(n + 1), r.below(5) as u8),
     };
     let got = run_bound_consume(&tc, &case.signals, &case.script, Some(case.rng_seed), &how, n + 8)?;
     acc.evaluations += 1;
@@ -328,6 +329,11 @@ pub fn adaptor_check(case: &Case, pr: &Printed, base: &RealTrace, r: &mut crate:
         Consume::StepBy(_) => "step_by",
         Consume::Count(_) => "count",
         Consume::Last(_) => "last",
+        Consume::Bulk(_, 0) => "collect",
+        Consume::Bulk(_, 1) => "for_each",
+        Consume::Bulk(_, 2) => "fold",
+        Consume::Bulk(_, 3) => "find",
+        Consume::Bulk(..) => "filter_map",
     };
     acc.event(&format!("adaptor_runs_{name}"), 1);
     if let Some(p) = &got.panic {
@@ -369,7 +375,7 @@ pub fn adaptor_check(case: &Case, pr: &Printed, base: &RealTrace, r: &mut crate:
         ));
     }
     let exhausted = match &how {
-        Consume::StepBy(_) | Consume::Count(_) | Consume::Last(_) => true,
+        Consume::StepBy(_) | Consume::Count(_) | Consume::Last(_) | Consume::Bulk(..) => true,
         Consume::Nth(_) | Consume::Skip(_) => got.items.last().map(|(_, i)| *i == RealItem::End).unwrap_or(false),
     };
     if exhausted && m != base.calls.len() {
